@@ -1429,8 +1429,12 @@ class Simulation:
 
         """
 
-        # Replace residual by provided vector
+        # Ensure misfit has been computed (and therefore residual/weights).
+        _ = self.misfit
+
+        # Replace residual by provided vector, keeping the actual residual
         # (division by weight is undone in gradient).
+        residual = self.data.residual.data.copy()
         with np.errstate(invalid='ignore'):  # (For division by cplx-NaN.)
             self.data.residual[...] = vector/self.data.weights.data
 
@@ -1440,8 +1444,15 @@ class Simulation:
             if hasattr(self, name):
                 delattr(self, name)
 
-        # Return gradient from weighted residual `vector`.
-        return self.gradient
+        # Gradient from weighted residual `vector`.
+        jtvec = self.gradient
+
+        # Restore the residual; reset gradient, as it is not the gradient of
+        # the misfit.
+        self.data.residual[...] = residual
+        self._gradient = None
+
+        return jtvec
 
     # UTILS
     @property
